@@ -33,6 +33,8 @@ impl Arena {
 
             // NOTE: approximate usage, as `Vec::(try_)reserve_exact` doesn't
             // give guarantees about exact capacity value :).
+            #[cfg(feature = "_verif_hooks")]
+            crate::verif::hit(0);
             self.limiter.increase_usage(additional)?;
 
             // NOTE: with wisely chosen preallocated size this branch should be
@@ -50,11 +52,15 @@ impl Arena {
     }
 
     pub fn init_with(&mut self, slice: &[u8]) -> Result<(), MemoryLimitExceededError> {
+        #[cfg(feature = "_verif_hooks")]
+        crate::verif::hit(1);
         self.data.clear();
         self.append(slice)
     }
 
     pub fn shift(&mut self, byte_count: usize) {
+        #[cfg(feature = "_verif_hooks")]
+        crate::verif::hit(2);
         self.data.copy_within(byte_count.., 0);
         self.data.truncate(self.data.len() - byte_count);
     }
